@@ -900,6 +900,12 @@ func (fr *Frame) ghostCallUpdates(st *State, name string, args []Val, res []Val,
 		for i, a := range res {
 			sc.vars[fmt.Sprintf("ret%d", i)] = a
 		}
+		if gu.Mark {
+			if !fr.attrMark(st, sc, gu.E) {
+				panic(contractErr("markcall needs [cond ==>] [!]attr(name, x): " + gu.Text))
+			}
+			continue
+		}
 		if gu.Assume {
 			fr.assume(st, fr.evalBool(sc, gu.E))
 			fr.top.trusted["assumed about results of "+gu.OnCall+" in "+shortKey(fr.fc.Key)+": "+strings.TrimSpace(gu.Text[strings.Index(gu.Text, ":")+1:])] = true
